@@ -85,6 +85,21 @@ func runSessionsOracle(sessions []*Session, key *isoKey) (string, *Witness) {
 	}
 	dict := map[string]first{}
 	sites := map[string]bool{}
+	// observations of the isolated key made inside the sessions (on whatever
+	// schema and document objects the sessions had at that point)
+	var keyText string
+	type keyObs struct {
+		r    string
+		sess int
+		op   int
+	}
+	var keyObsd []keyObs
+	if key != nil {
+		keyText = key.Kind + "\x00" + key.SchemaName + "\x00" + key.Schema
+		if key.Kind == "V" {
+			keyText += "\x00" + key.Doc
+		}
+	}
 	for si, s := range sessions {
 		for _, op := range s.Ops {
 			for _, r := range op.Orders {
@@ -94,6 +109,9 @@ func runSessionsOracle(sessions []*Session, key *isoKey) (string, *Witness) {
 		r := runSession(s, false)
 		for _, o := range r.obs {
 			tk := sessionTextKey(s, o.Key)
+			if key != nil && tk == keyText {
+				keyObsd = append(keyObsd, keyObs{o.Rendering, si, o.Op})
+			}
 			f, ok := dict[tk]
 			if !ok {
 				dict[tk] = first{o.Rendering, si, o.Op}
@@ -125,7 +143,20 @@ func runSessionsOracle(sessions []*Session, key *isoKey) (string, *Witness) {
 		}
 	}
 	if key != nil {
-		h, a := evalIsolated(key), evalInChild(key)
+		a := evalInChild(key)
+		for _, ko := range keyObsd {
+			if a.A != overBudgetMark && ko.r != a.A {
+				x, y := firstDiffLine(a.A, ko.r)
+				rule := ruleOfLine(x)
+				if x == "" {
+					rule = ruleOfLine(y)
+				}
+				w := &Witness{Key: key.ObsKey, Kind: "history", RenderingFirst: a.A, RenderingLater: ko.r, Rule: rule, OpLater: ko.op, SessionLater: ko.sess,
+					FirstDiffLine: x + "  <>  " + y + "   (alone in a fresh process  <>  as observed at that operation of these sessions)"}
+				return "disagree-history|rule=" + rule, w
+			}
+		}
+		h := evalIsolated(key)
 		here, alone := h.A, a.A
 		if h.A == a.A && h.B != a.B {
 			here, alone = h.B, a.B
@@ -354,9 +385,38 @@ func c10HistoryWitnessMain(args []string) {
 	fs.Parse(args)
 	var m isoMismatch
 	readJSON(*in, &m)
+	if m.SelfInconsistent {
+		// the key alone is the witness: load, validate, validate again through
+		// the other entry point, all in one fresh process
+		sess := &Session{Seed: m.Key.Session, Source: "isolated-key", Explicit: true,
+			Schemas: []NamedText{{m.Key.SchemaName, m.Key.Schema}}}
+		if m.Key.Kind == "L" {
+			sess.Ops = []Op{{Kind: "load", S: 0}, {Kind: "load", S: 0}}
+		} else {
+			sess.Docs = []string{m.Key.Doc}
+			sess.Ops = []Op{{Kind: "load", S: 0}, {Kind: "first", S: 0, D: 0}, {Kind: "query", S: 0, D: 0}}
+		}
+		rp := &c10Replay{Format: "verif-c10-replay/2", Property: "C10", Session: sess, Replay: true,
+			Note: "one schema text, one document text, one fresh process: the second evaluation on the same schema object differs from the first"}
+		tmp := *out + ".cand.json"
+		writeJSON(tmp, rp)
+		o, _ := exec.Command(os.Args[0], "c10-replay", tmp).CombinedOutput()
+		os.Remove(tmp)
+		i := strings.Index(string(o), "REPRODUCED class=")
+		if i < 0 {
+			fatal(3, "self-inconsistent key does not reproduce as a session")
+		}
+		class := string(o)[i+len("REPRODUCED class="):]
+		if j := strings.IndexByte(class, '\n'); j >= 0 {
+			class = class[:j]
+		}
+		rp.Class = class
+		writeJSON(*out, rp)
+		fmt.Printf("escalated witness: class=%s sessions=1 candidates=1\n", class)
+		return
+	}
 	c10EscalateMain([]string{"--seed", fmt.Sprint(*seed), "--worker", "0", "--index", fmt.Sprint(m.Key.Index), "--sources", *sources, "--canonical", "--iso", *in, "--out", *out, "--budget", budget.String()})
 }
-
 
 // c10CanonMinMain: is a violation found under perturbed map orders really due
 // to them? The same sessions are replayed in a fresh process with every map
